@@ -386,3 +386,49 @@ def is_const(e, value=None):
     if not isinstance(e, ast.Constant):
         return False
     return value is None or (type(e.value) is type(value) and e.value == value)
+
+
+def int_ordering(e, pol=True, symmap=None):
+    """Integer ordering guard as a non-strict linear form: returns (coeffs, const) meaning
+    sum(coeffs[s] * s) + const >= 0, or None.  symmap: expression text -> (symbol, offset)
+    replaces an atom t by symbol + offset (e.g. S.count(sep) -> N - 1).  Strict comparisons
+    are tightened by one (valid for integer-valued forms only)."""
+    e = unawait(e)
+    if not (isinstance(e, ast.Compare) and len(e.ops) == 1):
+        return None
+    op = e.ops[0]
+    a, b = linear(e.left), linear(e.comparators[0])
+    if a is None or b is None:
+        return None
+
+    def sub(x, y):
+        co = dict(x[0])
+        for k, v in y[0].items():
+            co[k] = co.get(k, 0) - v
+        return {k: v for k, v in co.items() if v != 0}, x[1] - y[1]
+    if isinstance(op, ast.Gt):
+        d, strict = sub(a, b), True
+    elif isinstance(op, ast.GtE):
+        d, strict = sub(a, b), False
+    elif isinstance(op, ast.Lt):
+        d, strict = sub(b, a), True
+    elif isinstance(op, ast.LtE):
+        d, strict = sub(b, a), False
+    else:
+        return None
+    co, const = d
+    if not pol:
+        co = {k: -v for k, v in co.items()}
+        const = -const
+        strict = not strict
+    if strict:
+        const -= 1
+    out = {}
+    for k, v in co.items():
+        if symmap and k in symmap:
+            s, off = symmap[k]
+            out[s] = out.get(s, 0) + v
+            const += v * off
+        else:
+            out[k] = out.get(k, 0) + v
+    return {k: v for k, v in out.items() if v != 0}, const
